@@ -16,15 +16,16 @@ struct M
   bool observer_alive[C19_MAXOBSERVERS];
   int observer_of[C19_MAXOBSERVERS];   // observable index, -1 once the observable is gone
   bool pending[C19_MAXOBSERVERS];
+  bool ambiguous[C19_MAXOBSERVERS];    // copied from an observer with a pending notification: the first poll may report it or not
   unsigned long long last_value[1 + C19_MAXTHREADS];
   bool have_last[1 + C19_MAXTHREADS];
 } m;
 std::set<unsigned long long> *fresh_values;
 
-enum { P_POLL_TRUE = 0, P_POLL_FALSE, P_COALESCED, P_LATE_OBSERVER, P_OBSERVABLE_FIRST, P_OBSERVER_FIRST, P_POLL_ORPHAN, P_CONCURRENT_STAMPS, P_BULK };
+enum { P_POLL_TRUE = 0, P_POLL_FALSE, P_COALESCED, P_LATE_OBSERVER, P_OBSERVABLE_FIRST, P_OBSERVER_FIRST, P_POLL_ORPHAN, P_CONCURRENT_STAMPS, P_BULK, P_COPIED_OBSERVER, P_COPIED_OBSERVABLE, P_ASSIGNED };
 const char *probe_names[] = {"poll_returned_true", "poll_returned_false", "repeated_notifications_between_polls", "observer_created_after_notification",
                              "observable_destroyed_before_its_observer", "observer_destroyed_before_its_observable", "poll_after_observable_destroyed",
-                             "stamps_taken_by_two_or_more_threads", "observable_with_10_to_40_more_observers", nullptr};
+                             "stamps_taken_by_two_or_more_threads", "observable_with_10_to_40_more_observers", "observer_created_as_a_copy", "observable_created_as_a_copy", "observer_or_observable_assigned", nullptr};
 const char *no_faults[] = {nullptr};
 int notify_count[C19_MAXOBSERVABLES];
 int stamp_threads_seen;
@@ -53,12 +54,12 @@ void do_plan(int tier)
   }
   for (int i = 0; i < plan.nobs_ops; i++) {
     static const uint8_t kinds[] = {C19_NEW_OBSERVABLE, C19_NEW_OBSERVER, C19_NEW_OBSERVER, C19_NOTIFY, C19_NOTIFY, C19_POLL, C19_POLL, C19_POLL,
-                                    C19_DEL_OBSERVER, C19_DEL_OBSERVABLE};
+                                    C19_DEL_OBSERVER, C19_DEL_OBSERVABLE, C19_COPY_OBSERVER, C19_COPY_OBSERVABLE, C19_ASSIGN_OBSERVER, C19_ASSIGN_OBSERVABLE};
     C19Op &op = plan.obs_ops[i];
     op.kind = kinds[sim_plan(sizeof kinds)];
-    bool observer_op = op.kind == C19_NEW_OBSERVER || op.kind == C19_POLL || op.kind == C19_DEL_OBSERVER;
+    bool observer_op = op.kind == C19_NEW_OBSERVER || op.kind == C19_POLL || op.kind == C19_DEL_OBSERVER || op.kind == C19_COPY_OBSERVER || op.kind == C19_ASSIGN_OBSERVER;
     op.a = (uint8_t)sim_plan(observer_op ? C19_REGULAR_OBSERVERS + (uint32_t)plan.bulk_n : C19_MAXOBSERVABLES);
-    op.b = (uint8_t)sim_plan(C19_MAXOBSERVABLES);
+    op.b = (uint8_t)sim_plan(op.kind == C19_COPY_OBSERVER || op.kind == C19_ASSIGN_OBSERVER ? C19_REGULAR_OBSERVERS : C19_MAXOBSERVABLES);
   }
   // make sure there is something to observe early on
   if (plan.nobs_ops >= 2) {
@@ -96,11 +97,17 @@ int stuck(int deadlock, char *cls, size_t n)
 }
 void describe(char *buf, size_t n)
 {
-  static const char *on[] = {"new-observable", "new-observer", "notify", "poll", "del-observer", "del-observable"};
+  static const char *on[] = {"new-observable", "new-observer", "notify", "poll", "del-observer", "del-observable", "copy-observer", "copy-observable", "assign-observer", "assign-observable"};
   int k = snprintf(buf, n, "{\"stamp_threads\": %d, \"thread0_stamps\": %d, \"observer_history\": [", plan.nthreads, plan.t0_stamp_ops);
   for (int i = 0; i < plan.nobs_ops && k < (int)n - 80; i++)
-    k += snprintf(buf + k, n - k, "%s\"%s %d%s\"", i ? "," : "", on[plan.obs_ops[i].kind], plan.obs_ops[i].a,
-                  plan.obs_ops[i].kind == C19_NEW_OBSERVER ? (plan.obs_ops[i].b == 0 ? " on 0" : (plan.obs_ops[i].b == 1 ? " on 1" : " on 2")) : "");
+  {
+    char from[24] = "";
+    if (plan.obs_ops[i].kind == C19_NEW_OBSERVER)
+      snprintf(from, sizeof from, " on %d", plan.obs_ops[i].b);
+    else if (plan.obs_ops[i].kind >= C19_COPY_OBSERVER)
+      snprintf(from, sizeof from, " from %d", plan.obs_ops[i].b);
+    k += snprintf(buf + k, n - k, "%s\"%s %d%s\"", i ? "," : "", on[plan.obs_ops[i].kind], plan.obs_ops[i].a, from);
+  }
   snprintf(buf + k, n - k, "]}");
 }
 const SimScenario scen = {"c19", "C19", LANE_DEBUG, reset, do_plan, c19_run, check, stuck, describe, no_faults, probe_names, 0};
@@ -138,6 +145,10 @@ int c19_obs_applicable(const C19Op *op)
   case C19_POLL: return m.observer_alive[op->a];
   case C19_DEL_OBSERVER: return m.observer_alive[op->a];
   case C19_DEL_OBSERVABLE: return m.observable_alive[op->a];
+  case C19_COPY_OBSERVER: return !m.observer_alive[op->a] && m.observer_alive[op->b];
+  case C19_COPY_OBSERVABLE: return !m.observable_alive[op->a] && m.observable_alive[op->b];
+  case C19_ASSIGN_OBSERVER: return m.observer_alive[op->a] && m.observer_alive[op->b];
+  case C19_ASSIGN_OBSERVABLE: return m.observable_alive[op->a] && m.observable_alive[op->b];
   }
   return 0;
 }
@@ -154,6 +165,7 @@ void c19_obs_done(const C19Op *op, int res)
     m.observer_alive[op->a] = true;
     m.observer_of[op->a] = op->b;
     m.pending[op->a] = false;
+    m.ambiguous[op->a] = false;
     if (notify_count[op->b])
       sim_probe(P_LATE_OBSERVER);
     break;
@@ -166,7 +178,46 @@ void c19_obs_done(const C19Op *op, int res)
         m.pending[j] = true;
       }
     break;
+  case C19_COPY_OBSERVER:
+    // a new observer of the same observable; what its source had pending may or may not be carried over
+    m.observer_alive[op->a] = true;
+    m.observer_of[op->a] = m.observer_of[op->b];
+    m.pending[op->a] = false;
+    m.ambiguous[op->a] = m.observer_of[op->b] >= 0 && (m.pending[op->b] || m.ambiguous[op->b]);
+    sim_probe(P_COPIED_OBSERVER);
+    break;
+  case C19_ASSIGN_OBSERVER:
+    // the observer now looks at what its source looks at; a notification pending on either side may or may not show once
+    if (op->a != op->b) {
+      bool amb = (m.observer_of[op->b] >= 0 && (m.pending[op->b] || m.ambiguous[op->b]));
+      m.observer_of[op->a] = m.observer_of[op->b];
+      m.pending[op->a] = false;
+      m.ambiguous[op->a] = amb;
+    }
+    sim_probe(P_ASSIGNED);
+    break;
+  case C19_ASSIGN_OBSERVABLE:
+    // observers stay with the instance they were created on; whether the assigned-to instance takes over the
+    // "has notified" state of its source is left open: its observers' next poll may go either way
+    if (op->a != op->b)
+      for (int j = 0; j < C19_MAXOBSERVERS; j++)
+        if (m.observer_alive[j] && m.observer_of[j] == op->a && !m.pending[j])
+          m.ambiguous[j] = true;
+    sim_probe(P_ASSIGNED);
+    break;
+  case C19_COPY_OBSERVABLE:
+    // a new observable: the observers of the source keep observing the source
+    m.observable_alive[op->a] = true;
+    notify_count[op->a] = 0;
+    sim_probe(P_COPIED_OBSERVABLE);
+    break;
   case C19_POLL: {
+    if (m.ambiguous[op->a] && !m.pending[op->a] && m.observer_of[op->a] >= 0) {
+      m.ambiguous[op->a] = false;
+      sim_probe(res ? P_POLL_TRUE : P_POLL_FALSE);
+      break;
+    }
+    m.ambiguous[op->a] = false;
     bool exp = m.observer_of[op->a] >= 0 && m.pending[op->a];
     if (m.observer_of[op->a] < 0)
       sim_probe(P_POLL_ORPHAN);
